@@ -39,6 +39,7 @@ type rigOpts struct {
 	KeepN    int
 	Seed     int64 // jitter seed (0 = none)
 	Loader   string
+	NapUnderFiles int // >0: Config.PersisterNapUnderNumFiles
 }
 
 func (o rigOpts) String() string {
@@ -110,6 +111,10 @@ func newRig(o rigOpts) *rig {
 		if o.KeepN > 0 {
 			n := o.KeepN
 			ic.DeletionPolicyFunc = func() index.DeletionPolicy { return index.NewKeepNLatestDeletionPolicy(n) }
+		}
+		if o.NapUnderFiles > 0 {
+			// the persister waits for a lagging merger once the directory holds this many files (default 1000)
+			ic.PersisterNapUnderNumFiles = o.NapUnderFiles
 		}
 	})
 	r.Cfg = cfg
